@@ -196,6 +196,9 @@ structure Ghost where
   pressure : Bool := false
   /-- largest charge any insert asked for, per key, since the last clear (for C04's premise) -/
   keyCharges : List (Nat × Int) := []
+  /-- the charge the latest insert asked for, per key; at quiescence (nothing in flight) the combined
+  cost of the entries not yet reclaimed is the sum of these over the charged keys -/
+  keyLatest : List (Nat × Int) := []
   /-- deadline (created + ttl, 0 = none) of the last effective write per key -/
   lastDeadline : List (Nat × Nat) := []
   /-- per blocked wait(): what had been removed / accepted before the call (the barrier's subject) -/
@@ -312,6 +315,11 @@ def finishStep (st : CacheSt) (tl : Tally) (c' : Cache) (what : String) (cbsMode
   let tl := compareCSnap tl (modelSnap c') snap what
   let g := noteCallbacks g cbsImpl
   let tl := monitorSnapshot tl g snap quiescentExtra
+  -- nothing in flight: the combined cost of what is not yet reclaimed is what was last asked for
+  -- each charged key (C04's premise follows the history, not the peak)
+  let g := if snap.buf == 0 && g.blocked.isEmpty && quiescentExtra then
+      { g with keyCharges := g.keyLatest.filter fun (k, _) => snap.charges.any (·.1 == k) }
+    else g
   ({ st with c := some (resync { c' with cbs := [] } snap), g := { g with prev := some snap } },
    { tl with ok := tl.ok + 1 })
 
@@ -441,7 +449,8 @@ partial def stepCache (st : CacheSt) (tl : Tally) (act : String) (ans : String) 
         let wanted := c.internalCost (if cost == 0 then coster else cost)
         let prevMax := ((g.keyCharges.find? (·.1 == k)).map (·.2)).getD 0
         let g := if !only || before.isSome then
-            { g with keyCharges := (k, if wanted > prevMax then wanted else prevMax) :: g.keyCharges.filter (·.1 != k) } else g
+            { g with keyCharges := (k, if wanted > prevMax then wanted else prevMax) :: g.keyCharges.filter (·.1 != k),
+                     keyLatest := (k, wanted) :: g.keyLatest.filter (·.1 != k) } else g
         -- C04's premise: the combined cost of everything ever asked for since the last clear fits
         let g := if sumCosts g.keyCharges > snap.max || (!retI && !only) then { g with pressure := true } else g
         let dropped := !retI && !only && !c.closed && retS == "0"
@@ -539,7 +548,10 @@ partial def stepCache (st : CacheSt) (tl : Tally) (act : String) (ans : String) 
       | some k, some cf, some v =>
         let (c', ret) := c.getMutWrite k cf now v
         let retI := retS.toNat?
-        let tl := tl.bump (if ret.isSome then "getmut.hit" else "getmut.miss")
+        let tl := tl.bump (if ret.isSome then "getmut.hit" else
+          (match g.prev.bind (fun s => findItem s k) with
+           | some it => if itemExpired now it then "getmut.expired" else "getmut.miss"
+           | none => "getmut.miss"))
         let tl := match retI, g.prev.bind (fun s => findItem s k) with
           | some _, some it => if itemExpired now it then tl.monitorAt "C03" s!"get_mut({k},{cf}) served an entry whose TTL has elapsed" else tl
           | _, _ => tl
@@ -563,7 +575,11 @@ partial def stepCache (st : CacheSt) (tl : Tally) (act : String) (ans : String) 
       match k.toNat?, cf.toNat? with
       | some k, some cf =>
         let ret := c.getTtl k cf now
-        let tl := tl.bump (match ret with | none => "getttl.none" | some none => "getttl.max" | some (some _) => "getttl.remaining")
+        let tl := tl.bump (match ret with
+          | none => (match g.prev.bind (fun s => findItem s k) with
+              | some it => if itemExpired now it then "getttl.expired" else "getttl.none"
+              | none => "getttl.none")
+          | some none => "getttl.max" | some (some _) => "getttl.remaining")
         let retM := match ret with | none => "none" | some none => "max" | some (some n) => toString n
         -- C03 monitor on the implementation's answer
         let tl := match g.prev.bind (fun s => findItem s k) with
@@ -791,7 +807,7 @@ partial def stepCache (st : CacheSt) (tl : Tally) (act : String) (ans : String) 
         -- resident values are dropped without callback by clear
         let g := { g with dropped := (g.prev.map residentVals).getD [] ++ g.dropped,
                           lookups := 0, dropsExpected := 0, rejectsExpected := 0, flushed := 0, lastWrite := [],
-                          ringLookups := snap.ring.length, lastDeadline := [], keyCharges := [], pressure := false,
+                          ringLookups := snap.ring.length, lastDeadline := [], keyCharges := [], keyLatest := [], pressure := false,
                           releasedG := g.waitFifo ++ g.clearFifo.take 1 ++ g.releasedG, waitFifo := [],
                           clearFifo := g.clearFifo.drop 1 }
         finishStep st tl c' "p.clear" (newCbs c c') cbsImpl snap g
@@ -823,7 +839,9 @@ partial def stepCache (st : CacheSt) (tl : Tally) (act : String) (ans : String) 
                     let tl := if d != 0 && now ≥ cr + d then tl else tl.monitorAt "C05" s!"the sweep removed key {k} which has not expired (ttl={d} created={cr} now={now})"
                     let tl := if pv == v then tl else tl.monitorAt "C05" s!"on_evict for swept key {k} carried value {v}, resident value was {pv}"
                     match p.charges.find? (·.1 == k) with
-                    | some (_, ch) => if ch == ec then tl else tl.monitorAt "C05" s!"on_evict for swept key {k} carried cost {ec}, charged cost was {ch}"
+                    | some (_, ch) => if ch == ec then tl else
+                        (tl.monitorAt "C05" s!"on_evict for swept key {k} carried cost {ec}, charged cost was {ch}").monitorAt "C16"
+                          s!"on_evict for expired key {k} reported cost {ec}, the charged cost was {ch}"
                     | none => tl
                   | none => tl.monitorAt "C05" s!"on_evict for key {k} which was not resident"
                 | _ => tl) tl
